@@ -80,6 +80,10 @@ structure Ex where
   coro : Bool
   ioRecv : Bool
   vars : List Nat
+  /-- Which occurrence this is. The analysis never looks at it (it is 0 in everything the
+  serialiser writes); an interpretation of the abstract language (`Model/LivenessRun.lean`,
+  `Model/SplitRun.lean`) uses it to give each expression occurrence its own meaning. -/
+  tag : Nat
   deriving Repr, DecidableEq, Inhabited
 
 /-- Assignment operators as `doAssign` distinguishes them. -/
@@ -157,7 +161,7 @@ def doAssign (r : Lv n) (op : AOp) (lhs : Lhs) (rhs : Ex) : Lv n :=
   | Lhs.expr e => doExpr r e                 -- `n.LHS().Operator() != 0`: walk the LHS
   | Lhs.var i =>
     -- the LHS is implicitly also on the RHS for `+=` etc.
-    let r := if op ≠ AOp.eq ∧ op ≠ AOp.eqQuestion then doExpr r ⟨false, false, [i]⟩ else r
+    let r := if op ≠ AOp.eq ∧ op ≠ AOp.eqQuestion then doExpr r ⟨false, false, [i], 0⟩ else r
     r.lowerWeakToNone i
 
 /-- `doJump`: reconcile into the target loop's `after` (break) or `before` (continue),
@@ -256,12 +260,26 @@ slices as the pass left them. `l.changed` is "some `l.before.reconcile`/`l.after
 of this pass changed something", i.e. the slices differ from those the pass started with;
 slices only ever grow, the `join` with the previous value makes that explicit.
 Accepted by Lean's termination checker: each further pass strictly lowers `Loop.height`. -/
-def fixLoop (step : Loop n → St n → Loop n × St n) (l : Loop n) (σ : St n) : Loop n × St n :=
+def fixLoopWF (step : Loop n → St n → Loop n × St n) (l : Loop n) (σ : St n) : Loop n × St n :=
   let p := step l σ
   let l2 := l.join p.1
-  if h : l2 = l then (l, p.2) else fixLoop step l2 p.2
+  if h : l2 = l then (l, p.2) else fixLoopWF step l2 p.2
 termination_by l.height
 decreasing_by exact Loop.height_join_lt l _ h
+
+/-- The same iteration with an explicit bound on the number of passes (structural recursion, so
+that the kernel can evaluate the analysis on concrete programs). -/
+def fixLoopN (step : Loop n → St n → Loop n × St n) : Nat → Loop n → St n → Loop n × St n
+  | 0, l, σ => (l, (step l σ).2)
+  | k + 1, l, σ =>
+    let p := step l σ
+    let l2 := l.join p.1
+    if l2 = l then (l, p.2) else fixLoopN step k l2 p.2
+
+/-- `doWhile`'s iteration: `Loop.height l + 1 ≤ 4·n + 1` passes always suffice — `fixLoop` IS the
+unbounded iteration `fixLoopWF` (`Proof/LivenessMain.lean`, `fixLoop_eq_wf`). -/
+def fixLoop (step : Loop n → St n → Loop n × St n) (l : Loop n) (σ : St n) : Loop n × St n :=
+  fixLoopN step (l.height + 1) l σ
 
 /-- One pass of `doWhile`'s `for` loop over condition and body, started from `l.before`, with
 the loop's own `loopLivenesses` pushed for the body (`h.loops[n] = l`); returns the loop's
